@@ -203,6 +203,17 @@ def work(P, item):
             viol.append(("reported dm == last target", term(rd) != o["last_dm"]))
         if o["last_p"] is not None:
             viol.append(("reported period == last target", z3.BoolVal(rp != o["last_p"])))
+        if not hasattr(P, "_wit17"):
+            P._wit17 = 0
+        if P._wit17 < 6 and ctx.check(z3.Or([c for _, c in viol])) == z3.unsat and ctx.check() == z3.sat:
+            P._wit17 += 1
+            m0 = ctx.solver.model()
+
+            def fv0(t):
+                v = m0.eval(t, model_completion=True)
+                return float(Fraction(v.numerator_as_long(), v.denominator_as_long()))
+            wp = dict(shape=list(shape), dm_fold=fv0(o["dm0"]), history=[[k, (fv0(o["dms"][i]) if k == "dm" else v)] for i, (k, v) in enumerate(hist)])
+            P.witness("c17", wp, f"c17-witness-{abs(hash(label)) % 100000}", label)
         for n_, c in viol:
             if ctx.check(c) == z3.unsat:
                 P.obligation(f"{label}/{n_}", "holds")
